@@ -125,6 +125,11 @@ class Obj:
         return f"<{self.cls.qname} {self.attrs if len(str(self.attrs)) < 80 else '...'}>"
 
 
+class DefaultDict(dict):
+    """collections.defaultdict: missing keys are created by applying the factory (a PE callable)"""
+    factory = None
+
+
 class Opaque:
     """Marker base for host-Python objects a check hands to the evaluator (paths, ...): attribute access, operators and
     method calls on them are performed natively."""
@@ -821,6 +826,9 @@ class PE:
         if isinstance(base, dict):
             k = self.hashable(idx)
             if k not in base:
+                if isinstance(base, DefaultDict) and base.factory is not None:
+                    base[k] = self.apply(base.factory, [], {})
+                    return base[k]
                 raise PERaise("KeyError", repr(self.to_py(k)))
             return base[k]
         if isinstance(base, Obj):
@@ -847,7 +855,7 @@ class PE:
         if isinstance(base, ModuleRef):
             m = self.src.modules[base.name]
             sub = f"{base.name}.{attr}"
-            if attr in m.funcs or attr in m.classes or attr in m.consts or attr in m.imports:
+            if attr in m.funcs or attr in m.classes or attr in m.consts or attr in m.imports or attr in self.module_globals(m):
                 return self.global_lookup(m, attr)
             if sub in self.src.modules:
                 return ModuleRef(sub)
